@@ -18,9 +18,9 @@
     The runtime remainder (panics/hangs inside yaml.v3, the PromQL parser, text/template, the opaque checks,
     the renderers' string handling) cannot be excluded by a model: PARTIAL, covered by executing the real
     in-process pipeline and the real binary with all four renderers on every generated/mutated/fixture file. *)
-From Coq Require Import List String Ascii Arith Bool NArith.
+From Coq Require Import List String Ascii Arith Bool NArith ZArith Lia.
 From PintV Require Import Common.Bytes Model.Yaml Model.YamlPosLines Model.Parser Model.YamlFits Model.Routing Run.C19
-  Proofs.C19_relaxed Proofs.C02_wellformed Proofs.C02_lines Proofs.C02_poslines.
+  Proofs.C19_relaxed Proofs.C02_wellformed Proofs.C02_lines Proofs.C02_poslines Model.Render Proofs.C02_render.
 Import ListNotations.
 Open Scope string_scope.
 Open Scope list_scope.
@@ -131,6 +131,55 @@ Theorem C02_positions_total :
     pos_lines lines (n_value n) (n_line n) (n_col n) mc <> None.
 Proof. exact pos_lines_total. Qed.
 Print Assumptions C02_positions_total.
+
+
+(** ---- (5) renderer index arithmetic on line ranges (Model/Render.v; tied by correspondence of LineRange.Expand) ---- *)
+
+(** For a range inside the file the JSON `lines` expansion returns exactly First..Last (no makeslice panic) and the
+    console prints every one of those lines (the guard added by f44c1ab drops nothing). *)
+Theorem C02_render_total :
+  forall nlines first last : Z,
+    (1 <= first)%Z -> (first <= last)%Z -> (last <= nlines)%Z ->
+    (exists l, expand first last = Ok l /\ Z.of_nat (List.length l) = (last - first + 1)%Z /\
+               forall x, In x l <-> (first <= x <= last)%Z) /\
+    console_plain nlines first last = zrange first (Z.to_nat (last - first + 1)).
+Proof.
+  intros nlines first last H1 H2 H3. split; [apply expand_ok; lia|apply console_plain_all; assumption].
+Qed.
+Print Assumptions C02_render_total.
+
+(** The expansion panics exactly for ranges inverted by more than one (the class of defect aba0d51 repaired) ... *)
+Theorem C02_render_crash_iff :
+  forall first last : Z, (exists w, expand first last = Crash w) <-> (last < first - 1)%Z.
+Proof. exact expand_crash_iff. Qed.
+Print Assumptions C02_render_crash_iff.
+
+(** ... while the console loop indexes inside the file for ANY range. *)
+Theorem C02_console_in_bounds :
+  forall nlines first last x : Z, In x (console_plain nlines first last) -> (1 <= x <= nlines)%Z.
+Proof. exact console_plain_in_bounds. Qed.
+Print Assumptions C02_console_in_bounds.
+
+(** Put together for the always-enabled error check, strict mode: the yaml/parse problem of every error entry renders. *)
+Theorem C02_error_report_renders_strict :
+  forall plines metric_ok lname_ok lvalue_ok dur_ok int_ok thanos all_lines ds yerr e p,
+    plines_inside plines ->
+    docs_fit (List.length all_lines) ds = true ->
+    (forall pe, yerr = Some pe -> 1 <= pe_line pe /\ pe_line pe <= List.length all_lines) ->
+    In e (read_rules (parse_strict plines metric_ok lname_ok lvalue_ok dur_ok int_ok thanos all_lines ds yerr)) ->
+    parse_rule_error e = Ok p ->
+    expand (Z.of_nat (p_first p)) (Z.of_nat (p_last p)) = Ok [Z.of_nat (p_first p)] /\
+    (1 <= Z.of_nat (p_first p) <= Z.of_nat (List.length all_lines))%Z /\
+    console_plain (Z.of_nat (List.length all_lines)) (Z.of_nat (p_first p)) (Z.of_nat (p_last p)) = [Z.of_nat (p_first p)].
+Proof.
+  intros until p. intros Hp Hd Hy Hin E.
+  destruct (C02_lines_strict _ _ _ _ _ _ _ _ _ _ _ Hp Hd Hy Hin) as (A & _). destruct (A p E) as [[A1 A2] _].
+  assert (Heq : p_first p = p_last p).
+  { unfold parse_rule_error in E. destruct (e_perr e); [inversion E; reflexivity|]. destruct (r_error (e_rule e)); [inversion E; reflexivity|discriminate]. }
+  rewrite <- Heq.
+  split; [apply expand_singleton|]. split; [lia|]. apply console_plain_singleton. lia.
+Qed.
+Print Assumptions C02_error_report_renders_strict.
 
 (** Non-vacuity / regression of the design-session witness: the strict file with rules `- {}`, `- ~`
     (corpus/C02/empty_rules.yaml) yields two error rules (not the zero Rule that made pint dereference nil),
